@@ -166,6 +166,14 @@ def subcommands(P, quick):
                  "--reference", P["fa"], "--recombination-list", o + "/recomb.tsv"],
                 {"vcf": (o + "/out.vcf", "vcf"), "recomb": (o + "/recomb.tsv", "text")})
 
+    def phase_ped_lists(o, t):
+        # every auxiliary list at once, genotypes distrusted (so that genotype changes exist)
+        return (["phase", "--ped", P["ped"], P["vcf"], P["bam"], "-o", o + "/out.vcf", "--reference", P["fa"],
+                 "--distrust-genotypes", "--recombination-list", o + "/recomb.tsv", "--changed-genotype-list", o + "/gtchanges.tsv",
+                 "--output-read-list", o + "/reads.tsv"],
+                {"vcf": (o + "/out.vcf", "vcf"), "recomb": (o + "/recomb.tsv", "text"), "gtchanges": (o + "/gtchanges.tsv", "text"),
+                 "readlist": (o + "/reads.tsv", "text")})
+
     def genotype(o, t):
         return (["genotype", P["vcf"], P["bam"], "-o", o + "/out.vcf", "--reference", P["fa"]],
                 {"vcf": (o + "/out.vcf", "vcf")})
@@ -228,6 +236,7 @@ def subcommands(P, quick):
     subs = collections.OrderedDict()
     subs["phase"] = (phase, [None])
     subs["phase-ped"] = (phase_ped, [None])
+    subs["phase-ped-lists"] = (phase_ped_lists, [None])
     subs["genotype"] = (genotype, [None])
     if not quick:
         subs["genotype-ped"] = (genotype_ped, [None])
@@ -243,7 +252,7 @@ def subcommands(P, quick):
     return subs
 
 
-def run_variant(ctx, builder, d, tag, seed, threads):
+def run_variant(ctx, builder, d, tag, seed, threads, keep=False):
     o = os.path.join(d, "run_" + tag)
     os.makedirs(o, exist_ok=True)
     args, outs = builder(o, threads if threads is not None else 1)
@@ -258,7 +267,8 @@ def run_variant(ctx, builder, d, tag, seed, threads):
             views[label] = load(path, kind)
         else:
             views[label] = None
-    shutil.rmtree(o, ignore_errors=True)
+    if not keep:
+        shutil.rmtree(o, ignore_errors=True)
     return rc, "", views
 
 
@@ -279,10 +289,12 @@ def explore(ctx, case, only=None):
             if len(thread_opts) > 1:
                 # every thread count at the baseline seed as well
                 variants += [("0", t) for t in thread_opts[1:]]
+            # literal repetition: the same command once more with the same output paths (the files of the first run exist)
+            variants.insert(1, (variants[0][0], variants[0][1]))
             base = None
             for vi, (seed, threads) in enumerate(variants):
-                tag = f"{name}_{vi}"
-                rc, err, views = run_variant(ctx, builder, d, tag, seed, threads)
+                tag = f"{name}_{0 if vi == 1 else vi}"
+                rc, err, views = run_variant(ctx, builder, d, tag, seed, threads, keep=(vi == 0))
                 vdesc = f"PYTHONHASHSEED={seed}" + (f" threads={threads}" if threads is not None else "")
                 if base is None:
                     if rc != 0:
